@@ -1012,6 +1012,23 @@ func genDraw(g *h.Gen) {
 // genDrawCP: every code point (and out-of-range rune values) as primary content, in the first, a middle and the last
 // column, UTF-8 and an 8-bit locale.
 func genDrawCP(g *h.Gen) {
+	// history dependence: a non-printing code point drawn AFTER printable code points that share its low 16 / low 8
+	// bits or differ from it by a power of two (these cases come FIRST in the run: first-lookup-wins per-process caches of widths or encodings keyed too coarsely only
+	// misbehave in that order; every case of a run executes in one process, and so does each of these)
+	var npr []int
+	for c := 0x7f; c <= 0x9f; c++ {
+		npr = append(npr, c)
+	}
+	npr = append(npr, 0xad, 0x61c, 0x200b, 0x200c, 0x200d, 0x200e, 0x200f, 0x202a, 0x202e, 0x2060, 0x2066, 0x2069, 0xfeff, 0xfff9, 1, 7, 27)
+	for i := 0; i < len(npr); i += 4 {
+		var ops []string
+		for k := 0; k < 4 && i+k < len(npr); k++ {
+			c := npr[i+k]
+			ops = append(ops, fmt.Sprintf("S 0 %d %d - 0,0,0,0,0,-,-", k, 0x10000+c), fmt.Sprintf("S 2 %d %d - 0,0,0,0,0,-,-", k, 0x20000+c),
+				fmt.Sprintf("S 4 %d %d - 0,0,0,0,0,-,-", k, c+0x100), "W", fmt.Sprintf("S 6 %d %d - 0,0,0,0,0,-,-", k, c), "W")
+		}
+		g.Emit("draw xterm-256color 0 8 4 %s", strings.Join(ops, "; "))
+	}
 	var cps []int
 	if g.Thorough() {
 		for c := 0; c <= 0x10FFFF; c++ {
